@@ -143,23 +143,57 @@ example : (Factory.tendonTorqueAngle (1/2:Rat) 3 (1/3) (1/2)).isSome = true ∧
     2 * (1/2 : Rat) * rootEPS < 1/3 := exTT
 example : (Factory.tendonTorqueAngle1 (1/2:Rat)).isSome = true ∧ 6 * (1/2 : Rat) * rootEPS < 1 := exTT1
 
-/-- 1l : `createPassiveTorqueAngleCurve` (5- and 2-argument overloads, both orientations), for
-    `|stiffnessAtOneNormTorque| > 1`: well-formed, and all sections are corner sections -/
+/-- 1l : `createPassiveTorqueAngleCurve` (5- and 2-argument overloads) with the repaired toe width
+    (D21: `if(delta <= 0) delta = 0.05*abs(x1-x0)`), on the WHOLE documented domain — no condition on
+    the magnitude of `stiffnessAtOneNormTorque` any more:
+    * increasing orientation (`angleAtZeroTorque < angleAtOneNormTorque`): well-formed, always;
+    * both orientations: well-formed and made of corner sections (hence C2, 3e) when the corner between
+      the two sections is non-degenerate, `|stiffnessAtLowTorque - stiffnessAtOneNormTorque| > sqrt(eps)`,
+      which holds whenever the angle range is below 0.2/sqrt(eps) ≈ 1.3e7 rad.
+    The residual hypothesis is needed: see `badPTdeg` (decreasing orientation, range 2^26 rad: reported
+    `dydx0` ≠ slope at `x0`) and `badPTinc` (increasing: well-formed, slope jump at the interior knot). -/
+theorem passiveTorqueAngle_WF_increasing (angleAtZeroTorque angleAtOneNormTorque stiffnessAtLowTorque
+    stiffnessAtOneNormTorque curviness : α) (c : Curve α)
+    (h : Factory.passiveTorqueAngle angleAtZeroTorque angleAtOneNormTorque stiffnessAtLowTorque
+      stiffnessAtOneNormTorque curviness = some c) (hinc : angleAtZeroTorque < angleAtOneNormTorque) :
+    c.WF := (passiveTorqueAngle_spec _ _ _ _ _ c h).1 hinc
 theorem passiveTorqueAngle_WF (angleAtZeroTorque angleAtOneNormTorque stiffnessAtLowTorque
     stiffnessAtOneNormTorque curviness : α) (c : Curve α)
     (h : Factory.passiveTorqueAngle angleAtZeroTorque angleAtOneNormTorque stiffnessAtLowTorque
-      stiffnessAtOneNormTorque curviness = some c) (hk1 : absα stiffnessAtOneNormTorque > 1) :
-    c.WF ∧ ∃ kx ky km, c.CornerBuilt kx ky km := passiveTorqueAngle_spec _ _ _ _ _ c h hk1
-theorem passiveTorqueAngle2_WF (z o : α) (c : Curve α) (h : Factory.passiveTorqueAngle2 z o = some c)
-    (hne : o ≠ z) (hH : absα (o - z) < 46/10) : c.WF ∧ ∃ kx ky km, c.CornerBuilt kx ky km :=
-  passiveTorqueAngle2_spec z o c h hne hH
-example : (Factory.passiveTorqueAngle (0:Rat) 2 (1/10) 2 (1/2)).isSome = true ∧ absα (2:Rat) > 1 ∧
-    (Factory.passiveTorqueAngle (2:Rat) 0 (-1/10) (-2) (1/2)).isSome = true ∧ absα (-2:Rat) > 1 := exPT
-example : (Factory.passiveTorqueAngle2 (0:Rat) 1).isSome = true ∧ (1:Rat) ≠ 0 ∧ absα ((1:Rat) - 0) < 46/10 := exPT2
-/-- DEFECT (inside the documented domain: 0.6 ≥ 1.1/2): for `|stiffnessAtOneNormTorque| < 1` the toe
-    width `0.1 (1 - |1/k|)` is negative, the first section runs backwards out of `[x0, x1]`, the
-    look-up at `x0` selects the second section and the function jumps at `x0` -/
-example : Factory.passiveTorqueAngle (0:Rat) 2 0 (6/10) (1/2) = some badPT ∧ ¬ badPT.WF ∧
+      stiffnessAtOneNormTorque curviness = some c)
+    (hnd : absα (stiffnessAtLowTorque - stiffnessAtOneNormTorque) > rootEPS ∨
+           absα (angleAtOneNormTorque - angleAtZeroTorque) * rootEPS < 2/10) :
+    c.WF ∧ ∃ kx ky km, c.CornerBuilt kx ky km := (passiveTorqueAngle_spec _ _ _ _ _ c h).2 hnd
+theorem passiveTorqueAngle2_WF (z o : α) (c : Curve α) (h : Factory.passiveTorqueAngle2 z o = some c) :
+    (z < o → c.WF) ∧ (absα (o - z) * rootEPS < 2/10 → c.WF ∧ ∃ kx ky km, c.CornerBuilt kx ky km) :=
+  passiveTorqueAngle2_spec z o c h
+example : (Factory.passiveTorqueAngle (0:Rat) 2 (1/10) 2 (1/2)).isSome = true ∧ (0:Rat) < 2 ∧
+    (Factory.passiveTorqueAngle (2:Rat) 0 (-1/10) (-2) (1/2)).isSome = true ∧
+    absα ((0:Rat) - 2) * rootEPS < 2/10 := exPT
+example : (Factory.passiveTorqueAngle2 (0:Rat) 1).isSome = true ∧ (0:Rat) < 1 ∧
+    absα ((1:Rat) - 0) * rootEPS < 2/10 := exPT2
+/-- the parameters of the former defect (|stiffnessAtOneNormTorque| = 0.6 < 1, range 2 rad) now give a
+    well-formed curve with non-decreasing control polygons that starts at `(x0, y0)`; by
+    `passiveTorqueAngle_WF`, `C2_everywhere` (example after 3e) and `eval_mono` it is C2 and monotone -/
+example : Factory.passiveTorqueAngle (0:Rat) 2 0 (6/10) (1/2) = some goodPT ∧ goodPT.WF ∧
+    absα ((0:Rat) - 6/10) > rootEPS ∧ goodPT.nseg = 2 ∧ (goodPT.segY 0).Mono ∧ (goodPT.segY 1).Mono ∧
+    (goodPT.segX 0).p0 = 0 ∧ (goodPT.segX 0).p5 = 1/10 ∧ goodPT.calcIndex goodPT.x0 = some 0 ∧
+    goodPT.eval goodPT.x0 0 = some goodPT.y0 := goodPT_spec
+/-- residual hypothesis, decreasing orientation: degenerate corner, `dydx0` is not the slope at `x0` -/
+example : Factory.passiveTorqueAngle (67108864:Rat) 0 (-4/335544320) (-3/134217728) (1/2) = some badPTdeg ∧
+    ¬ badPTdeg.WF ∧ badPTdeg.dydx0 = -3/134217728 ∧
+    derivDYDX 0 (badPTdeg.segX 0) (badPTdeg.segY 0) 1 = -3/159383552 := badPTdeg_spec
+/-- residual hypothesis, increasing orientation: well-formed, but the slope jumps at the interior knot -/
+example : Factory.passiveTorqueAngle (0:Rat) 67108864 (4/335544320) (3/134217728) (1/2) = some badPTinc ∧
+    badPTinc.WF ∧ derivDYDX 1 (badPTinc.segX 0) (badPTinc.segY 0) 1 = 1/83886080 ∧
+    derivDYDX 0 (badPTinc.segX 1) (badPTinc.segY 1) 1 = 107/12750684160 := badPTinc_spec
+/-- BEFORE the repair (`L18C.passiveTorqueAngleOld` = the definition without the added line; it agrees
+    with the repaired one e.g. on (0, 2, 0.1, 2, 0.5)): inside the documented domain (0.6 ≥ 1.1/2) the
+    toe width `0.1 (1 - |1/k|)` was negative, the first section ran backwards out of `[x0, x1]`, the
+    look-up at `x0` selected the second section and the function jumped at `x0` -/
+example : passiveTorqueAngleOld (0:Rat) 2 (1/10) 2 (1/2) = Factory.passiveTorqueAngle (0:Rat) 2 (1/10) 2 (1/2) :=
+  old_eq_new_instance
+example : passiveTorqueAngleOld (0:Rat) 2 0 (6/10) (1/2) = some badPT ∧ ¬ badPT.WF ∧
     badPT.x0 = 0 ∧ (badPT.segX 0).p0 = 0 ∧ (badPT.segX 0).p5 = -1/15 ∧ badPT.calcIndex badPT.x0 = some 1 ∧
     (badPT.segX 1).p0 = -1/15 := badPT_spec
 example (u : Rat) (h0 : 0 ≤ u) (h1 : u ≤ 1) (hx : bezVal u (badPT.segX 1) = badPT.x0) :
@@ -336,6 +370,16 @@ theorem C2_everywhere (c : Curve α) (h : c.WF) (hb : ∃ kx ky km, c.CornerBuil
   · exact a1
   · exact a2
 example : exFL.WF ∧ ∃ kx ky km, exFL.CornerBuilt kx ky km := ⟨exFL_WF, _, _, _, exFL_corner⟩
+/-- the repaired passive torque-angle curve at the parameters of the former defect D21 (see 1l) -/
+example : goodPT.WF ∧ goodPT.C2 ∧ (∀ i, i < goodPT.nseg → (goodPT.segY i).Mono) := by
+  obtain ⟨e, _, hnd, hn, m0, m1, _⟩ := goodPT_spec
+  obtain ⟨w, cb⟩ := passiveTorqueAngle_WF (0:Rat) 2 0 (6/10) (1/2) goodPT e (Or.inl hnd)
+  refine ⟨w, C2_everywhere goodPT w cb, ?_⟩
+  intro i hi; rw [hn] at hi
+  have : i = 0 ∨ i = 1 := by omega
+  rcases this with e | e <;> subst e
+  · exact m0
+  · exact m1
 
 /-- 3f : shifting and scaling (either sign of the x factor) preserve the C2 breakpoint conditions
     `Curve.C2` (defined in `Lemmas/L18CXform.lean`: the conclusion of 3e) -/
